@@ -464,6 +464,9 @@ def stage_windows(root, site, stmts, tier):
         pts = [str(i) for i in idx]
         # point window, and full-extent variants for each dim
         out.append((f"{nm}[{', '.join(pts)}]", nm))
+        # halo window around the access (may overhang both ends of the buffer)
+        if len(idx) == 1 and not isinstance(idx[0], LoopIR.Const):
+            out.append((f"{nm}[{pts[0]} - 1:{pts[0]} + 2]", nm))
         rank = len(idx)
         full = []
         for d in range(rank):
